@@ -10,6 +10,11 @@ CHECKS = {
   note="Trusted: go/ssa, gosmt, solvers. sort.Sort modelled as a compare-exchange network running the real Less/Swap (n<=8) and checked to return a sorted permutation; in Normalize harnesses the sort is the identity on inputs assumed sorted. Lengths above the stated bounds, CellUnionFromRange/MaxTile tiling, CellIndex and s2intersect are outside this check (see DESIGN).",
   technique="go/ssa symbolic execution + SMT (QF_BV) with probe-leaf reference model, z3 5.1.0/4.8.12 portfolio, native replay",
   design="DESIGN.md §4 C11"),
+ "C06": dict(
+  text="Bounded symbolic model checking of the Shape contract on the real accessors of LaxLoop, LaxPolyline, Polyline, PointVector, LaxPolygon (0-3 loops x 0-3 vertices), Loop and Polygon (1-3 loops, both the linear-search and the cumulativeEdges path, holes reversed): chains are contiguous and cover NumEdges, ChainPosition inverts Chain, ChainEdge(ChainPosition(e)) == Edge(e) and ChainEdge(i,j) == Edge(Chain(i).Start+j) for symbolic edge/offset indices, no accessor panics in range.",
+  note="Vertices are distinct concrete points (only indices matter); shapes of the listed sizes only. Index location logic, index-cell assembly and the equality of index queries with brute force on geometry are not covered by this check (geometric completeness of clipping is outside the technique, DESIGN §4 C06).",
+  technique="go/ssa symbolic execution + SMT (BV indices, FP equality of selected constants), native replay",
+  design="DESIGN.md §4 C06"),
 }
 NOT_BUILT = "check not built yet (designed in DESIGN.md section 4)"
 NA = {}
